@@ -184,18 +184,25 @@ class FunctionTranslator:
         self.nested_scopes = {}
         self.inlining = []      # stack of nested functions being inlined (recursion guard)
         self.ret_stack = [0]
+        self.callinfo = {}
 
     # ---- variables and scopes
+    # Every value variable v has a shadow variable ds(v): what `.dataset` of the value denotes.  Parameter i is the
+    # pair of IR parameters (2i+1, 2i+2); the return value is (0, ret2) with ret2 the first variable after the IR
+    # parameters; locals and temporaries are allocated in pairs (v, v+1).
     def var(self, key):
         if key not in self.vars:
             self.vars[key] = self.nvars
-            self.nvars += 1
+            self.nvars += 2
         return self.vars[key]
 
     def tmp(self):
         v = self.nvars
-        self.nvars += 1
+        self.nvars += 2
         return v
+
+    def ds(self, v):
+        return self.ret2 if v == 0 else v + 1
 
     def refuse(self, node, why):
         raise Refused(f'{self.module}:{self.qualname}:{getattr(node, "lineno", "?")}: {why}')
@@ -520,28 +527,62 @@ class FunctionTranslator:
         a = fn.args
         self.params = [arg.arg for arg in a.posonlyargs + a.args + a.kwonlyargs]
         self.scopes.append({n: n for n in self.own_bindings(fn.body, a)})
+        self.nvars = 1
         for p in self.params:
-            self.var(p)
-        self.arity = len(self.params)
+            self.var(p)                      # 2i+1 (reach), 2i+2 (dataset)
+        self.arity = 2 * len(self.params)
+        self.ret2 = self.arity + 1           # Model.ret2 (arity)
+        self.nvars = self.arity + 2
         self.frame_locals = self.infer_frame_locals(fn)
         self.index_statements(fn)
         self.cur_stmt = None
         # *args / **kwargs containers are fresh locals; surplus arguments are conservatively bound to EVERY
         # parameter at call sites (see emit_call)
         body = self.block(fn.body)
+        pre = []
+        for arg in a.posonlyargs + a.args + a.kwonlyargs:
+            ann = ast.unparse(arg.annotation) if arg.annotation is not None else ''
+            if ('DataFrame' in ann or 'Series' in ann) and 'Model' not in ann and 'Any' not in ann:
+                # a pandas object has no `.dataset`: its dataset channel is empty
+                self.raw_move(pre, self.ds(self.var(self.scopes[0][arg.arg])), [])
+        body = Seq(pre + [body])
+        if self.cls is not None and fn.name == '__init__' and self.params and self.params[0] == 'self':
+            # a constructor call Cls(args) denotes what `self` reaches when __init__ is done
+            out = []
+            self.op_move(out, 0, [0, self.var(self.scopes[0]['self'])])
+            body = Seq([body] + out)
         return {'arity': self.arity, 'body': body, 'params': self.params, 'nvars': self.nvars}
 
     # ---- op emission
     def op_alias(self, out, node):
+        """a `.dataset` whose owner is not tracked: THE input dataset"""
         v = self.tmp()
         out.append(f'(Op (Alias {v}))')
         return [v]
 
+    def op_dataset_of(self, out, owners, node):
+        """v := <owners>.dataset"""
+        if not owners:
+            return self.op_alias(out, node)
+        v = self.tmp()
+        out.append(f'(Op (Move {v} {vl(sorted({self.ds(w) for w in owners}))}))')
+        out.append(f'(Op (Move {self.ds(v)} []))')
+        return [v]
+
+    def raw_move(self, out, v, ws):
+        out.append(f'(Op (Move {v} {vl(sorted(set(ws)))}))')
+
     def op_move(self, out, v, ws):
         out.append(f'(Op (Move {v} {vl(sorted(set(ws)))}))')
+        out.append(f'(Op (Move {self.ds(v)} {vl(sorted({self.ds(w) for w in ws}))}))')
 
     def op_copy(self, out, v, ws):
         out.append(f'(Op (Copy {v} {vl(sorted(set(ws)))}))')
+        out.append(f'(Op (Move {self.ds(v)} {vl(sorted({self.ds(w) for w in ws}))}))')
+
+    def set_dataset_field(self, out, v, ws):
+        """the value in v is a model whose dataset is (one of) ws"""
+        out.append(f'(Op (Move {self.ds(v)} {vl(sorted(set(ws)))}))')
 
     def op_write(self, out, definite, ws, node, what, attr=False):
         """write class: 0 = attribute store (obj.a = v, setattr), 1 = other definite in-place mutation,
@@ -573,7 +614,7 @@ class FunctionTranslator:
     def e_Attribute(self, e, out):
         base = self.names(e.value, out)
         if e.attr in DATASET_ATTRS:
-            return self.op_alias(out, e) + base
+            return self.op_dataset_of(out, base, e)
         return base
 
     def e_Subscript(self, e, out):
@@ -715,6 +756,7 @@ class FunctionTranslator:
                 star += vs
             else:
                 kws[k.arg] = vs
+        self.callinfo[id(e)] = (pos, kws, star)
         return pos, kws, star, callables
 
     def run_callables(self, callables, bound, out, node):
@@ -739,6 +781,29 @@ class FunctionTranslator:
         return False
 
     def e_Call(self, e, out):
+        """a call with a `dataset=` keyword gives a value whose `.dataset` is the keyword's value: exactly that for
+        X.replace(dataset=..) / X.create(dataset=..) / Cls(dataset=..), possibly that otherwise"""
+        res = self._call(e, out)
+        has_ds = any(k.arg == 'dataset' for k in e.keywords)
+        splat = any(k.arg is None for k in e.keywords)
+        if not (has_ds or splat):
+            return res
+        pos, kws, star = self.callinfo.get(id(e), ([], {}, []))
+        f = e.func
+        exact = has_ds and ((isinstance(f, ast.Attribute) and f.attr in ('replace', 'create'))
+                            or (isinstance(f, ast.Name) and f.id[:1].isupper() and self.lookup(f.id) is None))
+        if not has_ds and not (isinstance(f, ast.Attribute) and f.attr in ('replace', 'create')):
+            return res
+        t = self.tmp()
+        self.raw_move(out, t, res)
+        src = list(kws.get('dataset', [])) + (list(star) if splat else [])
+        if exact:
+            self.set_dataset_field(out, t, src)
+        else:
+            self.set_dataset_field(out, t, src + [self.ds(w) for w in res])
+        return [t]
+
+    def _call(self, e, out):
         f = e.func
         # --- nested function called directly: inline
         if isinstance(f, ast.Name) and self.nested_of(f.id) is not None:
@@ -747,7 +812,7 @@ class FunctionTranslator:
         # --- model.dataset helpers
         if isinstance(f, ast.Name) and f.id in ALIAS_FUNCS and self.lookup(f.id) is None:
             pos, kws, star, callables = self.call_args(e, out)
-            return self.op_alias(out, e)
+            return self.op_dataset_of(out, [v for p in pos for v in p] + [v for p in kws.values() for v in p] + star, e)
         # --- plain name
         if isinstance(f, ast.Name) and self.lookup(f.id) is None:
             pos, kws, star, callables = self.call_args(e, out)
@@ -764,7 +829,9 @@ class FunctionTranslator:
                     self.op_copy(out, obj, [])
                     init = self.world.method_of(tgt, '__init__')
                     if init is not None:
-                        self.emit_call(init, pos, kws, star, out, e, recv=[obj])
+                        # the instance holds exactly what __init__ stored into it (its implicit `return self`)
+                        res = self.emit_call(init, pos, kws, star, out, e, recv=[obj])
+                        return [obj] + res + self.run_callables(callables, allv, out, e)
                     r = self.run_callables(callables, allv, out, e)
                     return [obj] + allv + r
             if f.id in BUILTIN_FRESH:
@@ -894,7 +961,11 @@ class FunctionTranslator:
             args = [a + extra for a in args]
         r = self.tmp()
         fid = self.world.fid(target)
-        out.append(f"(Op (Call {r} {fid} [{';'.join(vl(sorted(set(a))) for a in args)}]))")
+        both = []
+        for a in args:
+            both.append(vl(sorted(set(a))))
+            both.append(vl(sorted({self.ds(w) for w in a})))
+        out.append(f"(Op (Call {r} {self.ds(r)} {fid} [{';'.join(both)}]))")
         return [r]
 
     # ---- nested functions and lambdas (inlined, in their own naming scope)
@@ -971,6 +1042,13 @@ class FunctionTranslator:
             base = self.names(t.value, out)
             if isinstance(t, ast.Subscript):
                 self.names(t.slice, out)
+            if isinstance(t, ast.Attribute) and t.attr in DATASET_ATTRS:
+                # obj.dataset = v: the object's dataset field (its shadow variable), not retained in the object's reach
+                if not (isinstance(t.value, ast.Name) and t.value.id == 'self' and self.cls is not None):
+                    self.op_write(out, True, base, t, 'store into ' + ast.unparse(t)[:60], attr=True)
+                for w in set(base):
+                    self.set_dataset_field(out, w, [self.ds(w)] + vs)
+                return
             if (isinstance(t, ast.Attribute) and isinstance(t.value, ast.Name) and t.value.id == 'self'
                     and self.cls is not None and self.params and self.params[0] == 'self'
                     and t.attr not in DATASET_ATTRS):
@@ -1191,6 +1269,15 @@ class World:
         files = sorted((self.src / 'pharmpy' / 'modeling').glob('*.py'))
         files.append(self.src / 'pharmpy' / 'model' / 'external' / 'nonmem' / 'update.py')
         files.append(self.src / 'pharmpy' / 'model' / 'model.py')
+        self.core_count = len(files)
+        # tools helpers and the workflow API (soft: a function the translator refuses gets a body that writes every
+        # parameter through unknown code, and is listed)
+        self.soft_modules = set()
+        extra = sorted((self.src / 'pharmpy' / 'tools').rglob('*.py')) + sorted((self.src / 'pharmpy' / 'workflows').glob('*.py'))
+        for f in extra:
+            self.soft_modules.add('.'.join(f.relative_to(self.src).with_suffix('').parts))
+        files += extra
+        self.soft_refused = []
         for f in files:
             mod = '.'.join(f.relative_to(self.src).with_suffix('').parts)
             text = f.read_text()
@@ -1347,7 +1434,17 @@ class World:
         for key in self.order:
             node, cls = self.funcs[key]
             ft = FunctionTranslator(self, key[0], key[1], node, cls)
-            res = ft.translate()
+            try:
+                res = ft.translate()
+            except Refused as r_:
+                if key[0] not in self.soft_modules:
+                    raise
+                self.soft_refused.append(str(r_))
+                a_ = node.args
+                params = [x.arg for x in a_.posonlyargs + a_.args + a_.kwonlyargs]
+                ws = [f"(Op (Write 2%nat {j + 1} {self.new_write(key[0], key[1], node.lineno, 2, 'function not translated: ' + str(r_)[-60:])}))"
+                      for j in range(2 * len(params))]
+                res = {'arity': 2 * len(params), 'body': Seq(ws), 'params': params, 'nvars': 2 * len(params) + 2}
             res['module'], res['qualname'] = key
             res['line'] = node.lineno
             out.append(res)
@@ -1394,10 +1491,24 @@ def generate(repo_src, extra_sources=None):
     helpers = [i for i, f in enumerate(fns) if f['module'] == 'pharmpy.model.external.nonmem.update']
     lines.append('(* code generation helpers (reached from every modeling function through model.update_source()) *)')
     lines.append('Definition codegen_functions : list N := ' + vl(helpers) + '.')
+    # tools helpers / workflow API taking a model: functions of pharmpy/tools/** and pharmpy/workflows/*.py with a parameter
+    # annotated Model / ModelEntry or called model / model_entry / base_model ...
+    tools_roots = []
+    for i, f in enumerate(fns):
+        if f['module'] in world.soft_modules:
+            node, cls = world.funcs[(f['module'], f['qualname'])]
+            a_ = node.args
+            for arg in a_.posonlyargs + a_.args + a_.kwonlyargs:
+                ann = ast.unparse(arg.annotation) if arg.annotation is not None else ''
+                if 'Model' in ann or arg.arg in ('model', 'model_entry', 'base_model', 'input_model', 'models', 'model_entries',
+                                                  'base_model_entry', 'parent_model', 'candidate', 'candidates'):
+                    tools_roots.append(i)
+                    break
+    lines.append('Definition tools_functions : list N := ' + vl(tools_roots) + '.')
     meta = {
         'functions': [{'id': i, 'module': f['module'], 'qualname': f['qualname'], 'line': f['line'],
                        'params': f['params'], 'arity': f['arity']} for i, f in enumerate(fns)],
-        'writes': world.writes, 'public': pubs, 'codegen': helpers, 'trusted_core': sorted(world.trusted_core), 'unresolved_public': missing, 'sha': world.sha,
+        'writes': world.writes, 'public': pubs, 'codegen': helpers, 'tools': tools_roots, 'soft_refused': world.soft_refused, 'trusted_core': sorted(world.trusted_core), 'unresolved_public': missing, 'sha': world.sha,
     }
     return '\n'.join(lines) + '\n', meta
 
